@@ -270,7 +270,6 @@ def witness_stage(ctx: Ctx, fixes: dict):
 
 
 def two_linkers(ctx: Ctx, fixes: dict):
-    from splink import Linker
     wa = X.World("duckdb", version=0, table="inp")
     wa.apply(("predict",))
     # second linker on the same DatabaseAPI over a different input table
@@ -332,21 +331,14 @@ def new_api_same_database(ctx: Ctx):
 
 def estimate_u_twice(ctx: Ctx):
     """7.16: with seed=None the second estimate_u must build its blocked pairs from its own sample."""
-    import random as _r
     import splink.comparison_library as cl
     import splink.internals.database_api as D
     from splink import Linker, SettingsCreator, block_on
-    rng = _r.Random(1)
-    df = pd.DataFrame([{"unique_id": i, "first_name": rng.choice("abcdefgh"), "surname": rng.choice("xyz")}
+    df = pd.DataFrame([{"unique_id": i, "first_name": "abcdefgh"[(i * 7 + i // 8) % 8], "surname": "xyz"[(i * 5 + i // 3) % 3]}
                        for i in range(300)])
     st = SettingsCreator(link_type="dedupe_only", comparisons=[cl.ExactMatch("first_name"), cl.ExactMatch("surname")],
                          blocking_rules_to_generate_predictions=[block_on("surname")])
     api = su.duckdb_api()
-    log = []
-
-    class Spy:
-        pass
-    orig = api._execute_sql_against_backend
     lk = Linker(df, st, api)
     su.quiet()
     cache = lk._intermediate_table_cache
